@@ -275,7 +275,8 @@ class PaxosNode(Entity):
         metadata = event.context.get("metadata", {})
         ballot_number = metadata["ballot_number"]
 
-        if ballot_number not in self._phase1_responses:
+        # Promises for a ballot that was abandoned by a retry are ignored.
+        if ballot_number not in self._phase1_responses or ballot_number not in self._proposed_values:
             return []
 
         accepted_ballot = None
@@ -291,8 +292,10 @@ class PaxosNode(Entity):
         self._phase1_responses[ballot_number].append(response)
         self._promises_received += 1
 
-        # Check if we have a quorum
-        if len(self._phase1_responses[ballot_number]) >= self.quorum_size:
+        # Enter phase 2 exactly once per ballot, when the quorum is first reached.
+        # A promise that arrives later must not restart phase 2: the value sent
+        # under this ballot is fixed, and acks already counted belong to it.
+        if len(self._phase1_responses[ballot_number]) == self.quorum_size:
             return self._start_phase2(ballot_number)
 
         return []
@@ -437,6 +440,11 @@ class PaxosNode(Entity):
         metadata = event.context.get("metadata", {})
         ballot_number = metadata["ballot_number"]
         self._accepts_received += 1
+
+        # Acks for a ballot that was abandoned by a retry are ignored: its value
+        # has moved to the new ballot and must not be decided as None here.
+        if ballot_number not in self._proposed_values:
+            return []
 
         if ballot_number not in self._phase2_responses:
             self._phase2_responses[ballot_number] = 0
